@@ -47,6 +47,19 @@ class Opaque:
 OPAQUE = Opaque()
 
 
+class GameLumps:
+    """`self.game_lumps`"""
+
+
+class GameLumpRef:
+    """`self.game_lumps[<id>]`"""
+    def __init__(self, key: bytes) -> None:
+        self.key = key
+
+
+GAME_LUMPS = GameLumps()
+
+
 class _Break(Exception):
     pass
 
@@ -56,7 +69,8 @@ class _Continue(Exception):
 
 
 class _Return(Exception):
-    pass
+    def __init__(self, value: Any = None) -> None:
+        self.value = value
 
 
 class _Stop(Exception):
@@ -129,6 +143,7 @@ class Interp:
         self.module_cache: dict[str, Any] = {}
         self.module_functions = {n.name for n in tree.body if isinstance(n, ast.FunctionDef)}
         self.cur_env: dict[str, Any] = {}
+        self.depth = 0
         self.bsp_class = next((n for n in tree.body if isinstance(n, ast.ClassDef) and n.name == 'BSP'), None)
         if self.bsp_class is None:
             raise TranslateError('class BSP not found')
@@ -222,6 +237,8 @@ class Interp:
                 key = 'self.' + e.attr
                 if key in env:
                     return env[key]
+                if e.attr == 'game_lumps':
+                    return GAME_LUMPS
                 raise TranslateError(f'line {e.lineno}: self.{e.attr} is not followed by the interpreter')
             base = self.ev(e.value, env)
             if isinstance(base, EnumClass):
@@ -265,6 +282,8 @@ class Interp:
         if isinstance(e, ast.Subscript):
             base = self.ev(e.value, env)
             key = self.ev(e.slice, env)
+            if isinstance(base, GameLumps) and isinstance(key, bytes):
+                return GameLumpRef(key)
             if isinstance(base, dict):
                 self.known(key, e)
                 if key in base:
@@ -289,6 +308,9 @@ class Interp:
         if isinstance(e, ast.Dict) and all(k is not None for k in e.keys):
             return {self.ev(k, env): self.ev(v, env) for k, v in zip(e.keys, e.values)}      # type: ignore[arg-type]
         if isinstance(e, ast.Call):
+            m = self.followed_method(e)
+            if m is not None:
+                return self.call_method(m, e, env)
             if isinstance(e.func, ast.Attribute) and e.func.attr in ('startswith', 'endswith') and len(e.args) == 1 and not e.keywords:
                 try:
                     s = self.ev(e.func.value, env)
@@ -333,6 +355,56 @@ class Interp:
         if isinstance(e, (ast.JoinedStr, ast.List, ast.ListComp, ast.GeneratorExp, ast.Starred)):
             return OPAQUE
         raise TranslateError(f'line {e.lineno}: expression {ast.unparse(e)[:60]!r} not in the interpreted language')
+
+    def followed_method(self, c: ast.Call) -> ast.FunctionDef | None:
+        """`self.m(...)` where m is a method of BSP that reads or writes what is followed: its body is interpreted (a helper extracted
+        from the reader / writer)."""
+        if isinstance(c.func, ast.Attribute) and isinstance(c.func.value, ast.Name) and c.func.value.id == 'self':
+            m = next((x for x in self.bsp_class.body if isinstance(x, ast.FunctionDef) and x.name == c.func.attr), None)
+            if m is not None and any(isinstance(x, ast.Attribute) and x.attr in self.TRACKED_SELF for x in ast.walk(m)):
+                return m
+        return None
+
+    def call_method(self, m: ast.FunctionDef, c: ast.Call, env: dict[str, Any]) -> Any:
+        if self.depth > 4:
+            raise TranslateError(f'line {c.lineno}: helper methods nested too deeply')
+        if m.args.vararg or m.args.kwarg or m.args.kwonlyargs or any(isinstance(a, ast.Starred) for a in c.args) \
+                or any(isinstance(d, ast.Name) and d.id in ('staticmethod', 'classmethod', 'property') for d in m.decorator_list):
+            raise TranslateError(f'line {c.lineno}: call of self.{m.name} not followed')
+        if any(isinstance(x, (ast.Yield, ast.YieldFrom)) for x in ast.walk(m)):
+            raise TranslateError(f'line {c.lineno}: self.{m.name} is a generator')
+        params = [a.arg for a in m.args.args[1:]]
+        env2: dict[str, Any] = {k: v for k, v in env.items() if k.startswith('self.')}
+        env2['!pinned'], env2['!tracked'] = (), tuple(params)
+        vals = [self.ev(a, env) for a in c.args]
+        kw = {k.arg: self.ev(k.value, env) for k in c.keywords if k.arg}
+        defaults = m.args.defaults
+        for i, p in enumerate(params):
+            if i < len(vals):
+                env2[p] = vals[i]
+            elif p in kw:
+                env2[p] = kw[p]
+            elif i >= len(params) - len(defaults):
+                env2[p] = self.ev(defaults[i - (len(params) - len(defaults))], {})
+            else:
+                raise TranslateError(f'line {c.lineno}: call of self.{m.name}: parameter {p} not given')
+        self.depth += 1
+        saved = self.cur_env
+        self.cur_env = env2
+        ret = None
+        try:
+            self.run(m.body, env2)
+        except _Return as r:
+            ret = r.value
+        except _Stop:
+            raise TranslateError(f'self.{m.name}: a loop that is not over an enum reads a followed value') from None
+        finally:
+            self.depth -= 1
+            self.cur_env = saved
+        for k, v in env2.items():
+            if k.startswith('self.'):
+                env[k] = v
+        return ret
 
     def known(self, v: Any, e: ast.AST) -> None:
         vs = v if isinstance(v, tuple) else (v,)
@@ -398,12 +470,11 @@ class Interp:
             if isinstance(v, Opaque):
                 raise TranslateError(f'line {t.lineno}: self.{t.attr} receives a value the interpreter does not follow')
             env['self.' + t.attr] = v
-        elif isinstance(t, ast.Attribute) and t.attr == 'version' and isinstance(t.value, ast.Subscript) \
-                and ast.unparse(t.value.value) == 'self.game_lumps':
+        elif isinstance(t, ast.Attribute) and isinstance(self.ev(t.value, env), GameLumpRef):
             # the header number of a game lump, as it will be written by save()
-            k = self.ev(t.value.slice, env)
-            if isinstance(v, Opaque) or not isinstance(k, bytes) or not isinstance(v, int):
-                raise TranslateError(f'line {t.lineno}: header number of a game lump receives a value the interpreter does not follow')
+            k = self.ev(t.value, env).key
+            if t.attr != 'version' or isinstance(v, Opaque) or not isinstance(v, int) or isinstance(v, bool):
+                raise TranslateError(f'line {t.lineno}: {ast.unparse(t)[:50]} receives a value the interpreter does not follow')
             env['self.game_lumps.version:' + k.decode('ascii', 'replace')] = v
         elif isinstance(t, (ast.Tuple, ast.List)):
             if isinstance(v, Opaque):
@@ -443,6 +514,9 @@ class Interp:
     def stmt(self, st: ast.stmt, env: dict[str, Any]) -> None:
         if isinstance(st, ast.Expr):
             if isinstance(st.value, ast.Constant):
+                return
+            if isinstance(st.value, ast.Call) and self.followed_method(st.value) is not None:
+                self.ev(st.value, env)
                 return
             r, w = self.mentions_tracked(st, env)
             if isinstance(st.value, ast.Call) and not w:
@@ -504,7 +578,7 @@ class Interp:
         if isinstance(st, ast.Continue):
             raise _Continue()
         if isinstance(st, ast.Return):
-            raise _Return()
+            raise _Return(self.ev(st.value, env) if st.value is not None else None)
         if isinstance(st, ast.Raise):
             kind = 'Exception'
             if isinstance(st.exc, ast.Call) and isinstance(st.exc.func, ast.Name):
